@@ -184,6 +184,29 @@ func runC12(c *Ctx) {
 		}
 		c.check(good, rule, name+"/key", w.pos(f.Pos()), "key = getFullAddr(ToLower(protocol), host, port, transId)", name+" does not build its key as getFullAddr(strings.ToLower(protocol), host, port, transId)")
 	}
+	// the removal drops the entry stored under that key, and nothing else
+	if f := c.fn(rule, "(*ClientTransportMgr).RemoveTransport"); f != nil {
+		n, good := 0, true
+		for _, b := range f.Blocks {
+			for _, in := range b.Instrs {
+				call, isCall := in.(*ssa.Call)
+				if !isCall {
+					continue
+				}
+				if bi, ok := call.Call.Value.(*ssa.Builtin); !ok || bi.Name() != "delete" {
+					continue
+				}
+				if _, isT := isLoadOf(call.Call.Args[0], "ClientTransportMgr.transports"); !isT {
+					continue
+				}
+				n++
+				if w.resultOfCallTo(call.Call.Args[1], "(*ClientTransportMgr).getFullAddr", 0) == nil {
+					good = false
+				}
+			}
+		}
+		c.check(good && n > 0, rule, "(*ClientTransportMgr).RemoveTransport/exact-key", w.pos(f.Pos()), "the entry removed is the one stored under getFullAddr(...)", "RemoveTransport does not delete exactly the entry stored under its key (a prefix or pattern match over the table also drops the entries of other open transactions to the same address - z9hG4bK-t1 is a prefix of z9hG4bK-t10 - whose responses then leave on a newly dialled connection)")
+	}
 	if gf := c.fn(rule, "(*ClientTransportMgr).getFullAddr"); gf != nil {
 		// injective in its components: protocol://host:port[-transId]
 		isTCP := func(a Atom) bool { return a.Kind == "eqstr" && a.Str == "tcp" && isParam(gf, a.X, 1) }
@@ -223,7 +246,7 @@ func runC12(c *Ctx) {
 			c.check(cls == "literal" && isS && s == "", rule, "loop/accepted-connection-key", w.ipos(cs.In), "accepted connections are registered under their literal remote address without transaction", "an accepted connection is registered under a key that lookups for resolved hosts cannot produce")
 		}
 	}
-	c.floor(rule, 7)
+	c.floor(rule, 8)
 
 	// ---- (3) remove on final ----
 	rule = "remove-on-final"
